@@ -330,6 +330,64 @@ Proof.
       unfold c. apply (finv_l K HK). exact Hp0.
 Qed.
 
+(* the same for ANY list of holders with pairwise distinct non-zero nodes (rows in list order):
+   used for a single threshold gate over leaves *)
+Lemma vander_accepts : forall t hs ids, (0 < t)%nat -> hs <> [] ->
+  (forall a b, In a hs -> In b hs -> fromN a = fromN b -> a = b) ->
+  (forall id, In id hs -> fromN id <> 0) ->
+  (forall id, In id ids -> In id hs) ->
+  accepts K (zmsp (thr_rl t hs)) ids = Nat.leb t (card ids).
+Proof.
+  intros t hs ids Ht Hne Hinj Hnz Hknown.
+  pose proof (thr_wf t hs Ht Hne) as Hwf.
+  destruct ids as [|id0 ids0].
+  { rewrite accepts_nil. symmetry. apply Nat.leb_gt. cbn. exact Ht. }
+  remember (id0 :: ids0) as ids eqn:Eids.
+  assert (Hne' : ids <> []) by (subst; discriminate).
+  assert (Hknown' : forall id, In id ids -> In id (map fst (thr_rl t hs))).
+  { intros id Hid. unfold thr_rl. rewrite map_map. cbn [fst]. rewrite map_id. now apply Hknown. }
+  pose proof (rejects_zipped_iff (thr_rl t hs) ids Hwf Hne' Hknown') as Hiff.
+  rewrite (thr_D t hs Hne) in Hiff.
+  set (S := nodupN ids).
+  assert (HS : forall id, In id S <-> In id ids) by (intros; apply in_nodupN).
+  assert (HndS : NoDup S) by apply nodupN_NoDup.
+  set (nodes := map fromN S).
+  assert (Hndn : NoDup nodes).
+  { unfold nodes. apply NoDup_map_inj_rev; auto. intros a b Ha Hb. apply Hinj; apply Hknown, HS; auto. }
+  assert (Hlenn : length nodes = card ids) by (unfold nodes, card, S; now rewrite map_length).
+  assert (Hrow : forall id v, In (id, v) (thr_rl t hs) -> v = vander_row K (fromN id) t).
+  { intros id v Hin. unfold thr_rl in Hin. apply in_map_iff in Hin. destruct Hin as [x [E _]]. now inversion E. }
+  assert (Hrl : forall id, In id ids -> In (id, vander_row K (fromN id) t) (thr_rl t hs)).
+  { intros id Hid. unfold thr_rl. apply in_map_iff. exists id. split; auto. }
+  destruct (Nat.leb t (card ids)) eqn:Ec.
+  - apply Nat.leb_le in Ec.
+    destruct (accepts K (zmsp (thr_rl t hs)) ids) eqn:Ea; [reflexivity|]. exfalso.
+    destruct (proj1 Hiff eq_refl) as [w [Hw [Hk Hw0]]].
+    assert (Hall : all0 K w).
+    { apply (poly_roots_all0 K HK nodes w Hndn); [lia|].
+      intros a Ha. unfold nodes in Ha. apply in_map_iff in Ha. destruct Ha as [id [<- Hid]].
+      apply HS in Hid. rewrite <- (dot_vander_row t (fromN id) w Hw). apply (Hk id); auto. }
+    rewrite (all0_nth K w O Hall) in Hw0. symmetry in Hw0. now apply (f1_neq_0 K HK).
+  - apply Nat.leb_gt in Ec. apply Hiff.
+    set (c := finv K (fprod_sub K 0 nodes)).
+    assert (Hp0 : fprod_sub K 0 nodes <> 0).
+    { intro E. apply (fprod_sub_eq_0_iff K HK) in E. unfold nodes in E. apply in_map_iff in E.
+      destruct E as [id [E Hid]]. apply HS in Hid. apply (Hnz id); auto. }
+    exists (pscale K c (pprod_lin K nodes) ++ repeat 0 (t - Datatypes.S (length nodes))).
+    split; [|split].
+    + rewrite app_length, pscale_length, pprod_lin_length, repeat_length. lia.
+    + intros id v Hin Hid. rewrite (Hrow id v Hin).
+      rewrite dot_vander_row
+        by (rewrite app_length, pscale_length, pprod_lin_length, repeat_length; lia).
+      rewrite (peval_r_pad K HK), (peval_r_pscale K HK), (peval_r_pprod_lin K HK).
+      assert (E : fprod_sub K (fromN id) nodes = 0).
+      { apply (fprod_sub_eq_0_iff K HK). unfold nodes. apply in_map. now apply HS. }
+      rewrite E. ring.
+    + rewrite <- peval_r_at_0.
+      rewrite (peval_r_pad K HK), (peval_r_pscale K HK), (peval_r_pprod_lin K HK).
+      unfold c. apply (finv_l K HK). exact Hp0.
+Qed.
+
 (* ---- CNF --------------------------------------------------------------------------------------------- *)
 
 Lemma in_insert_set : forall x l y, In y (insert_set x l) <-> y = x \/ In y l.
@@ -745,3 +803,102 @@ Theorem cnf_accepts_iff_closed : forall F (K : fops F), flaws K -> forall mus (m
   (forall id, In id ids -> In id (msp_lab m)) ->
   accepts K m ids = is_qualified (Cnf mus) ids.
 Proof. intros F K HK. exact (cnf_accepts_iff K HK (fun _ => f0 K)). Qed.
+
+(* ---- a single threshold gate over distinct leaves (AND / OR / t-of-n gate) ---------------------------------
+   The general statement — accepts (induced_gate tree) ids = tree_eval ids tree for every checked tree —
+   is NOT proved (it needs the induction over the gate expansions of convert); this is the depth-1 case. *)
+From Coq Require Import Permutation.
+
+Section FlatGate.
+Context {F : Type} (K : fops F) (HK : flaws K) (fromN : N -> F).
+
+Add Field Kfield9 : (fl_theory K HK).
+
+(* the node convert gives to the child at position i of the root gate: FromUint64(i) - FromUint64(0) + 1 *)
+Definition gate_node (i : nat) : F := fadd K (fsub K (fromN (N.of_nat i)) (fromN (N.of_nat 0))) (f1 K).
+
+Definition leaf_index (leaves : list N) (id : N) : nat :=
+  match find_index (N.eqb id) leaves with Some i => i | None => O end.
+
+Lemma find_index_nth : forall (leaves : list N) i, NoDup leaves -> (i < length leaves)%nat ->
+  find_index (N.eqb (nth i leaves 0%N)) leaves = Some i.
+Proof.
+  induction leaves as [|a l IH]; intros i Hnd Hi; [cbn in Hi; lia|]. inversion Hnd; subst.
+  destruct i; cbn [nth find_index].
+  - now rewrite N.eqb_refl.
+  - destruct (N.eqb (nth i l 0%N) a) eqn:E.
+    + apply N.eqb_eq in E. exfalso. apply H1. rewrite <- E. apply nth_In. cbn in Hi. lia.
+    + rewrite IH by (auto; cbn in Hi; lia). reflexivity.
+Qed.
+
+Lemma find_index_leaves_none : forall leaves, find_index (fun n => negb (is_leaf n)) (map Leaf leaves) = None.
+Proof. induction leaves as [|a l IH]; [reflexivity|]. cbn [map find_index is_leaf negb]. now rewrite IH. Qed.
+
+Lemma leaf_ids_map_Leaf : forall leaves, leaf_ids (map Leaf leaves) = leaves.
+Proof. induction leaves as [|a l IH]; [reflexivity|]. cbn. unfold leaf_ids in IH. now rewrite IH. Qed.
+
+Lemma forallb_is_leaf_map : forall leaves, forallb is_leaf (map Leaf leaves) = true.
+Proof. induction leaves as [|a l IH]; [reflexivity|]. cbn. exact IH. Qed.
+
+Lemma map_by_index : forall {B} (f : N -> B) (l : list N),
+  map f l = map (fun i => f (nth i l 0%N)) (seq 0 (length l)).
+Proof.
+  intros B f l. assert (G : forall s, map f l = map (fun i => f (nth (i - s) l 0%N)) (seq s (length l))).
+  { induction l as [|a l IH]; intros s; [reflexivity|]. cbn [length seq map]. rewrite Nat.sub_diag. cbn [nth]. f_equal.
+    rewrite (IH (S s)). apply map_ext_in. intros i Hi. apply in_seq in Hi.
+    replace (i - s)%nat with (S (i - S s)) by lia. reflexivity. }
+  rewrite (G O). apply map_ext. intros i. now rewrite Nat.sub_0_r.
+Qed.
+
+Lemma powers_from_acc_eq : forall a b x n, a = b -> powers_from K a x n = powers_from K b x n.
+Proof. intros; subst; reflexivity. Qed.
+
+Lemma count_true_filter : forall {A} (p : A -> bool) l, count_true (map p l) = length (filter p l).
+Proof.
+  intros A p l. unfold count_true. induction l as [|a l IH]; [reflexivity|]. cbn [map filter].
+  destruct (p a); cbn [length]; now rewrite IH.
+Qed.
+
+Theorem gate_flat_exact : forall t leaves m ids,
+  induced_gate K fromN (Gate t (map Leaf leaves)) = Some m ->
+  NoDup leaves -> (0 < t)%nat -> leaves <> [] ->
+  (forall i j, (i < length leaves)%nat -> (j < length leaves)%nat -> gate_node i = gate_node j -> i = j) ->
+  (forall i, (i < length leaves)%nat -> gate_node i <> f0 K) ->
+  (forall id, In id ids -> In id leaves) ->
+  accepts K m ids = tree_eval ids (Gate t (map Leaf leaves)).
+Proof.
+  intros t leaves m ids Hind Hnd Ht Hne Hinj Hnz Hknown.
+  destruct t as [|t']; [lia|].
+  set (g := fun id => gate_node (leaf_index leaves id)).
+  (* the induced MSP is the Vandermonde MSP with node g(id) for leaf id, rows in leaf order *)
+  assert (Hm : m = zmsp (thr_rl K g (S t') leaves)).
+  { unfold induced_gate in Hind. cbn [tree_size] in Hind.
+    cbn [convert_loop] in Hind. unfold expand at 1 in Hind. cbn [find_index is_leaf negb nth] in Hind.
+    cbn [firstn skipn map app length pred] in Hind.
+    destruct (fold_right _ 0%nat (map Leaf leaves)) as [|k] eqn:Ef; cbn [convert_loop] in Hind;
+      unfold expand in Hind; rewrite !app_nil_r, find_index_leaves_none in Hind;
+      rewrite forallb_is_leaf_map, leaf_ids_map_Leaf in Hind; unfold new_msp in Hind;
+      (destruct (_ && _) eqn:Echk; [|discriminate]); inversion Hind; subst m; clear Hind.
+    all: unfold zmsp, thr_rl; rewrite !map_map; cbn [fst snd]; rewrite map_id; f_equal.
+    all: rewrite map_length; rewrite (map_by_index (fun id => vander_row K (g id) (S t')) leaves).
+    all: apply map_ext_in; intros i Hi; apply in_seq in Hi.
+    all: unfold g, leaf_index; rewrite (find_index_nth leaves i Hnd) by lia.
+    all: unfold vander_row, gate_node; cbn [powers_from app]; f_equal.
+    all: apply powers_from_acc_eq; change (N.of_nat 0) with 0%N; ring. }
+  subst m.
+  assert (Hlab : forall id, In id leaves -> exists i, (i < length leaves)%nat /\ leaf_index leaves id = i /\ nth i leaves 0%N = id).
+  { intros id Hid. apply (In_nth _ _ 0%N) in Hid. destruct Hid as [i [Hi E]]. exists i. split; [auto|].
+    split; [|exact E]. unfold leaf_index. rewrite <- E. now rewrite (find_index_nth leaves i Hnd Hi). }
+  rewrite (vander_accepts K HK g (S t') leaves ids); auto; try lia.
+  - (* both sides count the distinct listed leaves *)
+    cbn [tree_eval]. f_equal. rewrite map_map. cbn [tree_eval]. rewrite count_true_filter.
+    unfold card. apply Permutation_length. apply NoDup_Permutation.
+    + apply nodupN_NoDup.
+    + now apply NoDup_filter.
+    + intros x. rewrite in_nodupN, filter_In, memN_In. split; [intros Hx; split; auto|tauto].
+  - intros a b Ha Hb E. destruct (Hlab a Ha) as [i [Hi [Ei Ni]]]. destruct (Hlab b Hb) as [j [Hj [Ej Nj]]].
+    unfold g in E. rewrite Ei, Ej in E. pose proof (Hinj i j Hi Hj E). subst j. congruence.
+  - intros id Hid. destruct (Hlab id Hid) as [i [Hi [Ei _]]]. unfold g. rewrite Ei. now apply Hnz.
+Qed.
+
+End FlatGate.
